@@ -39,7 +39,10 @@ def arg_py(a):
         return None
     if t == "scalar":
         x = F(a["v"])
-        return int(x) if (a.get("int") and x.denominator == 1) else float(x)
+        isint = a.get("int") and x.denominator == 1
+        if a.get("np"):
+            return np.int64(int(x)) if isint else np.float64(float(x))
+        return int(x) if isint else float(x)
     if t == "badtype":
         return {"str": "abc", "dict": {"a": 1}, "set": {1, 2}, "none": None, "obj": object()}[a["v"]]
     out = []
@@ -56,6 +59,10 @@ def arg_py(a):
         return out
     if a.get("as") == "array":
         return np.array(out, dtype=float)
+    if a.get("as") == "intarray" and all(isinstance(x, int) for x in out):
+        return np.array(out, dtype=np.int64)
+    if a.get("as") == "npscalars":
+        return tuple(np.int64(x) if isinstance(x, int) else np.float64(x) for x in out)
     return tuple(out)
 
 
@@ -210,12 +217,23 @@ def sim_state(s, st):
 
 
 # ===================================================================== implementation side
+def corner(root, xs):
+    """corner values as the root asks for them: floats (default), Python ints, or an int64 array"""
+    if not root.get("int"):
+        return [float(F(x)) for x in xs]
+    v = [int(F(x)) for x in xs]
+    assert all(F(x).denominator == 1 for x in xs)
+    if root["int"] == "array":
+        return np.array(v, dtype=np.int64)
+    return tuple(v) if root["int"] == "tuple" else v
+
+
 def build(root):
-    region = df.Region(p1=[float(F(x)) for x in root["p1"]], p2=[float(F(x)) for x in root["p2"]],
+    region = df.Region(p1=corner(root, root["p1"]), p2=corner(root, root["p2"]),
                        dims=root["dims"], units=root["units"], tolerance_factor=DEFAULT_TF)
     if root["type"] == "region":
         return region
-    subs = {name: df.Region(p1=[float(F(x)) for x in a], p2=[float(F(x)) for x in b],
+    subs = {name: df.Region(p1=corner(root, a), p2=corner(root, b),
                             dims=root["dims"], units=root["units"])
             for name, (a, b) in root.get("subs", [])}
     mesh = df.Mesh(region=region, n=root["n"], bc=root.get("bc", ""), subregions=subs)
@@ -652,7 +670,7 @@ def fits(x, bits=40):
 FACTORS = [F(2), F(1, 2), F(-1), F(-2), F(3), F(-1, 2), F(3, 2), F(1, 4), F(-3, 2), F(1), F(4), F(-3), F(3, 4)]
 
 
-def gen_root(rng, typ, tier):
+def gen_root(rng, typ, tier, integer=False):
     if typ == "region":
         nd = rng.choice([1, 2, 2, 3, 3, 3, 4])
     elif typ == "mesh":
@@ -670,12 +688,17 @@ def gen_root(rng, typ, tier):
     cells = [F(rng.choice([1, 2, 3, 1, 1]), rng.choice([1, 2, 2, 4])) for _ in range(nd)] if with_subs else \
         [F(rng.choice([1, 3, 5, 7]), 2 ** rng.randint(0, 4)) for _ in range(nd)]
     lo = [F(rng.randint(-32, 32), 4) if with_subs else F(rng.randint(-128, 128), 8) for _ in range(nd)]
+    if integer:
+        cells = [F(rng.choice([1, 1, 2, 3])) for _ in range(nd)]
+        lo = [F(rng.randint(-8, 8)) for _ in range(nd)]
     hi = [a + k * c for a, k, c in zip(lo, n, cells)]
     p1, p2 = list(lo), list(hi)
     for a in range(nd):
         if rng.random() < 0.4:
             p1[a], p2[a] = p2[a], p1[a]
     root = dict(type=typ, p1=[S(x) for x in p1], p2=[S(x) for x in p2], dims=dims, units=units)
+    if integer:
+        root["int"] = rng.choice(["list", "tuple", "array"])
     if typ == "region":
         return root
     root["n"] = n
@@ -811,6 +834,62 @@ def gen_valid_step(rng, s, tame):
     return dict(op="rotate", ax1=a1, ax2=a2, k=dict(t="int", v=k), ref=ref, cls=f"k{k % 4}" + ("-ref" if ref["t"] != "none" else ""))
 
 
+INT_FACTORS = [F(2), F(-1), F(3), F(-2), F(1), F(-3), F(2), F(-1), F(1, 2), F(-1, 2)]
+
+
+def int_arg(rng, vals):
+    """values that are whole numbers travel as Python ints / numpy integers / an int64 array, others as
+    floats / numpy floats, in a tuple, a list or an array"""
+    as_ = rng.choice(["tuple", "list", "array", "intarray", "npscalars"])
+    return dict(t="seq", v=[S(v) for v in vals], int=rng.random() < 0.85, **{"as": as_})
+
+
+def int_scalar(rng, x):
+    return dict(t="scalar", v=S(x), int=rng.random() < 0.85, np=rng.random() < 0.3)
+
+
+def gen_int_step(rng, s):
+    """steps of the integer-typed stream: whole-number vectors / factors / reference points (typed as
+    ints), half-integer reference points, quarter turns whose image is not a whole number"""
+    nd = len(s["reg"]["lo"])
+    dims = s["reg"]["dims"]
+    ops = ["translate", "scale"] + (["rotate"] * 3 if nd >= 2 else [])
+    op = rng.choice(ops)
+
+    def point():
+        mode = rng.choice(["int", "int", "half", "corner", "origin"])
+        out = []
+        for a in range(nd):
+            if mode == "corner":
+                out.append(rng.choice([s["reg"]["lo"][a], s["reg"]["hi"][a]]))
+            elif mode == "origin":
+                out.append(F(0))
+            elif mode == "half":
+                out.append(F(2 * rng.randint(-6, 6) + (1 if rng.random() < 0.6 else 0), 2))
+            else:
+                out.append(F(rng.randint(-8, 8)))
+        return out
+    if op == "translate":
+        v = [F(rng.randint(-8, 8)) for _ in range(nd)]
+        if nd == 1 and rng.random() < 0.4:
+            return dict(op=op, v=int_scalar(rng, v[0]), cls="int-scalar")
+        return dict(op=op, v=int_arg(rng, v), cls="int")
+    if op == "scale":
+        if rng.random() < 0.5:
+            f = int_scalar(rng, rng.choice(INT_FACTORS))
+        else:
+            f = int_arg(rng, [rng.choice(INT_FACTORS) for _ in range(nd)])
+        ref = dict(t="none") if rng.random() < 0.3 else int_arg(rng, point())
+        if ref["t"] == "seq" and nd == 1 and rng.random() < 0.4:
+            ref = int_scalar(rng, F(ref["v"][0]))
+        return dict(op=op, f=f, ref=ref, cls="int" + ("-ref" if ref["t"] != "none" else ""))
+    a1, a2 = rng.sample(dims, 2)
+    k = rng.randint(-9, 9)
+    ref = dict(t="none") if rng.random() < 0.5 else int_arg(rng, point())
+    return dict(op="rotate", ax1=a1, ax2=a2, k=dict(t="int", v=k), ref=ref,
+                cls=f"int-k{k % 4}" + ("-ref" if ref["t"] != "none" else ""))
+
+
 def gen_bad_step(rng, s):
     nd = len(s["reg"]["lo"])
     dims = s["reg"]["dims"]
@@ -910,8 +989,8 @@ def state_ok(s, tame, rot_seen):
     return True
 
 
-def gen_history(rng, typ, tier, length, p_bad):
-    root = gen_root(rng, typ, tier)
+def gen_history(rng, typ, tier, length, p_bad, integer=False):
+    root = gen_root(rng, typ, tier, integer)
     s = root_sim(root)
     tame = bool(s["subs"])
     steps = []
@@ -929,7 +1008,7 @@ def gen_history(rng, typ, tier, length, p_bad):
             steps.append(st)
             continue
         for attempt_ in range(12):
-            st = gen_valid_step(rng, s, tame)
+            st = gen_int_step(rng, s) if (integer and rng.random() < 0.85) else gen_valid_step(rng, s, tame)
             nxt = sim_state(s, st)
             if nxt is not None and state_ok(nxt, tame, rot_seen or st["op"] == "rotate"):
                 break
@@ -1036,9 +1115,52 @@ def unmapped_rot_step(rng, s):
     return st
 
 
+def directed_integer():
+    """fixed part of every run: integer-typed corners whose image under a quarter turn / a scaling is not a
+    whole number (in-plane edges of different parity about the default centre, non-integer reference point,
+    factor 1/2), every k, both forms, on a region, a mesh with subregions and a field"""
+    cases = []
+    sub3 = [["a", [[S(0), S(0), S(0)], [S(2), S(1), S(1)]]], ["b", [[S(2), S(0), S(0)], [S(4), S(1), S(1)]]]]
+    roots = [
+        dict(type="region", p1=[S(0), S(0), S(0)], p2=[S(4), S(1), S(1)], dims=["x", "y", "z"],
+             units=["m", "nm", "s"]),
+        dict(type="region", p1=[S(3), S(-2)], p2=[S(-2), S(2)], dims=["a", "b"], units=["m", "s"]),
+        dict(type="mesh", p1=[S(0), S(0), S(0)], p2=[S(4), S(1), S(1)], dims=["x", "y", "z"],
+             units=["m", "nm", "s"], n=[4, 1, 1], bc="", subs=sub3),
+        dict(type="mesh", p1=[S(-1), S(0)], p2=[S(2), S(2)], dims=["x", "y"], units=["m", "m"], n=[3, 1], bc="",
+             subs=[["core", [[S(0), S(0)], [S(2), S(2)]]]]),
+        dict(_froot("xyz", [4, 1, 1], [4, 1, 1], 3, subs=sub3)),
+        dict(_froot("xy", [3, 2], [3, 2], 1)),
+    ]
+    for ri, root in enumerate(roots):
+        nd = len(root["p1"])
+        d = root["dims"]
+        halfref = dict(t="seq", v=[S(F(1, 2))] + [S(0)] * (nd - 1), int=True, **{"as": "tuple"})
+        intref = dict(t="seq", v=[S(1)] + [S(0)] * (nd - 1), int=True, **{"as": "list"})
+        for kind in ("list", "tuple", "array"):
+            r = dict(root, int=kind)
+            for k in (1, 2, 3, -1):
+                for ref in (dict(t="none"), halfref, intref):
+                    ip = (k + ri) % 2 == 0
+                    steps = [dict(op="rotate", ax1=d[0], ax2=d[1], k=dict(t="int", v=k), ref=ref, ip=ip,
+                                  cls="int-directed"),
+                             dict(op="translate", v=dict(t="seq", v=[S(1)] * nd, int=True, **{"as": "intarray"}),
+                                  ip=not ip, cls="int-directed"),
+                             dict(op="rotate", ax1=d[1], ax2=d[0], k=dict(t="int", v=k), ref=dict(t="none"),
+                                  ip=ip, cls="int-directed")]
+                    cases.append(dict(kind="history", root=r, steps=steps, tame=bool(root.get("subs")),
+                                      directed="integer"))
+            cases.append(dict(kind="history", root=r, tame=bool(root.get("subs")), directed="integer", steps=[
+                dict(op="scale", f=dict(t="scalar", v=S(F(1, 2))), ref=intref, ip=True, cls="int-directed"),
+                dict(op="scale", f=dict(t="scalar", v=S(-3), int=True), ref=halfref, ip=False, cls="int-directed"),
+                dict(op="translate", v=dict(t="seq", v=[S(F(1, 2))] * nd, **{"as": "tuple"}), ip=True,
+                     cls="int-directed")]))
+    return cases
+
+
 def generate(rng, tier):
     quick = tier == "quick"
-    cases = directed_refusals()
+    cases = directed_refusals() + directed_integer()
     # directed single steps: every factor sign x form x reference on a fixed region (exact regime)
     for f in [F(-1), F(-2), F(-1, 2), F(0), F(3)]:
         for ref in [dict(t="none"), seq([F(0), F(0), F(0)]), seq([F(2 ** 20), F(-3 * 2 ** 18), F(5)])]:
@@ -1056,7 +1178,8 @@ def generate(rng, tier):
         length = rng.randint(1, lmax) if rng.random() < 0.8 else rng.randint(1, 3)
         if typ == "field":
             length = min(length, 12)
-        cases.append(gen_history(rng, typ, tier, length, p_bad=rng.choice([0.0, 0.15, 0.15, 0.4])))
+        cases.append(gen_history(rng, typ, tier, length, p_bad=rng.choice([0.0, 0.15, 0.15, 0.4]),
+                                 integer=(i % 3 == 1)))
     # known-finding streams, small and rare
     for nf in (["nan-factor", "inf-factor", "nan-vector"] if quick else
                ["nan-factor", "inf-factor", "nan-vector", "-inf-factor", "nan-axis-factor"]):
